@@ -23,10 +23,10 @@ def snapshot(d):
         cfg = tomli.load(fh)
     cfg["current"].pop("restarted_from", None)
     out["restart.toml"] = tomli_w.dumps(cfg)
-    df = os.path.join(d, os.path.basename(cfg["output"]["data_file"]))
+    df = os.path.join(d, cfg["output"]["data_file"])
     out["data"] = open(df).read()
     for pn in cfg["current"]["active"]:
-        pdir = os.path.join(d, "load", str(pn))
+        pdir = os.path.join(d, cfg["simulation"]["load_dir"], str(pn))
         for f in ("order.txt", "energy.txt"):
             p = os.path.join(pdir, f)
             out[f"{pn}/{f}"] = open(p).read() if os.path.exists(p) else None
